@@ -300,65 +300,108 @@ func checkClaimRewards(P *core.Program, R *core.Report) {
 }
 
 func checkCheckpoints(P *core.Program, R *core.Report) {
-	for _, h := range []struct {
-		fn  string
-		dep string
-	}{{"x/masterchef/keeper.Keeper.AfterDepositPerReward", "true"}, {"x/masterchef/keeper.Keeper.AfterWithdrawPerReward", "false"}} {
-		fn := P.Fn(h.fn)
-		if fn == nil {
-			R.Add("C13-checkpoint", h.fn, "function", "-", false, "unresolved anchor")
-			continue
-		}
-		ff := P.Facts(fn)
-		var pend, debt ssa.CallInstruction
-		for _, c := range core.Calls(fn) {
-			if calleeMatches(P, c, "x/masterchef/keeper.Keeper.UpdateUserRewardPending") {
-				pend = c
-			}
-			if calleeMatches(P, c, "x/masterchef/keeper.Keeper.UpdateUserRewardDebt") {
-				debt = c
-			}
-		}
-		ok := pend != nil && debt != nil && core.Dominates(pend, debt)
-		if ok {
-			pa, da := pend.Common().Args, debt.Common().Args
-			// (k, ctx, poolId, rewardDenom, user, isDeposit, amount) / (k, ctx, poolId, rewardDenom, user)
-			for i := 2; i <= 4; i++ {
-				if ff.Fwd(pa[i]) != ff.Fwd(da[i]) || ff.Fwd(pa[i]) != ssa.Value(fn.Params[i]) {
-					ok = false
-				}
-			}
-			k, isK := pa[5].(*ssa.Const)
-			if !isK || k.Value == nil || k.Value.String() != h.dep {
-				ok = false
-			}
-			if ff.Fwd(pa[6]) != ssa.Value(fn.Params[5]) {
-				ok = false
-			}
-		}
-		R.Add("C13-checkpoint", h.fn, "pending before debt", P.Pos(fn.Pos()), ok, "the user's pending reward is settled at the old balance before the debt is re-based on the new one, for the same pool, denom and user")
-	}
-	// AfterDeposit / AfterWithdraw fan out over GetRewardDenoms with the same arguments
-	for _, h := range []struct{ fn, per string }{
-		{"x/masterchef/keeper.Keeper.AfterDeposit", "x/masterchef/keeper.Keeper.AfterDepositPerReward"},
-		{"x/masterchef/keeper.Keeper.AfterWithdraw", "x/masterchef/keeper.Keeper.AfterWithdrawPerReward"},
+	// AfterDeposit / AfterWithdraw: for every reward denom of the pool (a loop over
+	// GetRewardDenoms(ctx, poolId)) the user's pending reward is settled at the old balance
+	// (UpdateUserRewardPending with the hook's own pool, user, amount and the right direction
+	// flag) before the debt is re-based (UpdateUserRewardDebt, same pool, denom, user).  The
+	// two calls may sit in the hook itself or in helpers it hands its arguments to; roles are
+	// followed through the calls.
+	for _, h := range []struct{ fn, dep string }{
+		{"x/masterchef/keeper.Keeper.AfterDeposit", "true"},
+		{"x/masterchef/keeper.Keeper.AfterWithdraw", "false"},
 	} {
 		fn := P.Fn(h.fn)
-		if fn == nil {
+		if fn == nil || len(fn.Params) < 5 {
 			R.Add("C13-checkpoint", h.fn, "function", "-", false, "unresolved anchor")
 			continue
 		}
-		ff := P.Facts(fn)
-		ok := false
-		for _, c := range core.Calls(fn) {
-			if !calleeMatches(P, c, h.per) {
-				continue
-			}
-			a := c.Common().Args
-			ok = ff.Fwd(a[2]) == ssa.Value(fn.Params[2]) && ff.Fwd(a[4]) == ssa.Value(fn.Params[3]) && ff.Fwd(a[5]) == ssa.Value(fn.Params[4])
-		}
-		R.Add("C13-checkpoint", h.fn, "fan-out over reward denoms", P.Pos(fn.Pos()), ok, "every reward denom of the pool is checkpointed for the same user and amount")
+		bind := map[ssa.Value]string{fn.Params[2]: "POOL", fn.Params[3]: "USER", fn.Params[4]: "AMOUNT"}
+		ok, why := checkpointIn(P, fn, bind, h.dep, 0)
+		R.Add("C13-checkpoint", h.fn, "pending(old balance, direction "+h.dep+") before debt, for every reward denom", P.Pos(fn.Pos()), ok,
+			"the user's pending reward is settled at the old balance before the debt is re-based on the new one, for the same pool, denom and user, on every reward denom of the pool. "+why)
 	}
+}
+
+// checkpointIn looks for the pending/debt pair in fn under the role binding of its values.
+func checkpointIn(P *core.Program, fn *ssa.Function, bind map[ssa.Value]string, dep string, depth int) (bool, string) {
+	if depth > 3 || fn.Blocks == nil {
+		return false, "not found"
+	}
+	ff := P.Facts(fn)
+	role := func(v ssa.Value) string {
+		v = ff.Fwd(v)
+		if r, ok := bind[v]; ok {
+			return r
+		}
+		if k, ok := v.(*ssa.Const); ok && k.Value != nil {
+			return "CONST:" + k.Value.String()
+		}
+		// an element of GetRewardDenoms(ctx, POOL)
+		for _, o := range ff.Origins(v) {
+			if c, ok := o.Val.(*ssa.Call); ok && o.Kind == "call" && strings.HasSuffix(o.Name, "Keeper.GetRewardDenoms") && strings.HasSuffix(o.Path, "[]") {
+				a := c.Common().Args
+				if r, ok := bind[ff.Fwd(a[len(a)-1])]; ok && r == "POOL" {
+					return "DENOM"
+				}
+			}
+		}
+		return ""
+	}
+	var pend, debt ssa.CallInstruction
+	for _, c := range core.Calls(fn) {
+		if calleeMatches(P, c, "x/masterchef/keeper.Keeper.UpdateUserRewardPending") {
+			pend = c
+		}
+		if calleeMatches(P, c, "x/masterchef/keeper.Keeper.UpdateUserRewardDebt") {
+			debt = c
+		}
+	}
+	if pend != nil && debt != nil {
+		pa, da := pend.Common().Args, debt.Common().Args
+		// (k, ctx, poolId, rewardDenom, user, isDeposit, amount) / (k, ctx, poolId, rewardDenom, user)
+		switch {
+		case !core.Dominates(pend, debt):
+			return false, "the debt is re-based before the pending reward is settled"
+		case role(pa[2]) != "POOL" || role(da[2]) != "POOL" || role(pa[4]) != "USER" || role(da[4]) != "USER":
+			return false, "pool / user of the two calls are not the hook's own"
+		case role(pa[3]) != "DENOM" || role(da[3]) != "DENOM" || ff.Fwd(pa[3]) != ff.Fwd(da[3]):
+			return false, "the reward denom is not one and the same element of GetRewardDenoms(pool)"
+		case role(pa[5]) != "CONST:"+dep:
+			return false, "direction flag is " + role(pa[5]) + ", want " + dep
+		case role(pa[6]) != "AMOUNT":
+			return false, "amount is not the hook's amount"
+		}
+		return true, ""
+	}
+	// handed on to a helper
+	for _, c := range core.Calls(fn) {
+		sc := c.Common().StaticCallee()
+		if sc == nil || !core.InModule(sc) || sc.Blocks == nil || core.PkgRel(sc) != core.PkgRel(fn) {
+			continue
+		}
+		nb := map[ssa.Value]string{}
+		n := 0
+		for i, a := range c.Common().Args {
+			if i < len(sc.Params) {
+				if r := role(a); r != "" {
+					nb[sc.Params[i]] = r
+					if !strings.HasPrefix(r, "CONST:") {
+						n++
+					}
+				}
+			}
+		}
+		if n < 3 {
+			continue
+		}
+		// constants travel as roles: a bound parameter with role CONST:x answers as that constant
+		if ok, why := checkpointIn(P, sc, nb, dep, depth+1); ok {
+			return true, ""
+		} else if why != "not found" {
+			return false, why
+		}
+	}
+	return false, "not found"
 }
 
 // checkHookAmounts: the amount handed to the reward checkpoint hooks is the share amount
